@@ -765,8 +765,12 @@ def roi_from_points(
 
     ny, nx = shape
 
-    _in = np.floor(xy.min(axis=0)).astype("int32") - padding
-    _out = np.ceil(xy.max(axis=0)).astype("int32") + padding
+    # clamp in float domain first: far away points must not overflow int32,
+    # margin is wide enough to not change the outcome of padding/align/clip below
+    _margin = padding + (align or 0) + 1
+    _lo, _hi = -_margin, max(nx, ny) + _margin
+    _in = np.clip(np.floor(xy.min(axis=0)), _lo, _hi).astype("int32") - padding
+    _out = np.clip(np.ceil(xy.max(axis=0)), _lo, _hi).astype("int32") + padding
 
     if align is not None:
         _in = align_down(_in, align)
